@@ -101,19 +101,13 @@ fn read_sheet_header(
         None => return Err(SheetParseError::new(1, format!("Sheet was empty"))),
     };
 
-    let row_strs: Vec<String> = first_row
-        .into_iter()
-        .filter(|cell| match &cell {
-            DataType::String(_) => true,
-            _ => false,
-        })
-        .map(|cell| match cell {
-            DataType::String(s) => s.clone(),
-            v => panic!("DataType was {v:?}"),
-        })
-        .collect();
-
-    Ok(HashMap::from_iter(
-        row_strs.into_iter().enumerate().map(|(i, v)| (v, i)),
-    ))
+    // Column indices are assigned before the non-string (e.g. blank) header
+    // cells are dropped, so that a blank header does not shift the columns
+    // after it.
+    Ok(HashMap::from_iter(first_row.into_iter().enumerate().filter_map(
+        |(i, cell)| match cell {
+            DataType::String(s) => Some((s.clone(), i)),
+            _ => None,
+        },
+    )))
 }
